@@ -7,7 +7,7 @@ HERE = os.path.dirname(os.path.dirname(os.path.abspath(__file__)))
 props = [json.loads(l) for l in open(os.path.join(HERE, 'properties.jsonl'))]
 
 CHECKS = {
- 'C01': ('exploration', 'reference-evaluator oracle over returned dicts; spy/sim Runner + gate-controlled real runs',
+ 'C01': ('exploration', 'reference-evaluator oracle over returned dicts; spy/sim Runner + gate-controlled real runs; near-miss task twins whose value is their own typed identity; second Lab re-running the first Lab\'s task objects under another context',
          'Held on every explored (DAG, configuration, schedule): returned keys == requested (dedup, in order), every value == independent sequential evaluation, and equal across two configurations of the same spec. Exploration is the right level: the space (DAG shapes x configs x completion orders) is unbounded and the code is exercised for real.',
          'Trusts vlab.body.combine as the definition of a task value, the generator spec as ground truth for dependencies, CLOCK_MONOTONIC for cross-process order.', '4 C01'),
  'C02': ('exploration', 'happens-before trace oracle at the Runner boundary and over run() start/end/dep-read events',
@@ -19,7 +19,7 @@ CHECKS = {
  'C04': ('exploration', 'in-flight counters at the Runner boundary, launch ledger + run() intervals at gate-controlled rest points, interval sweep',
          'Held on every explored run: per-type in-flight <= max_parallel at every submit; launched-unfinished processes and tasks inside run() <= max_workers at every rest point and over the whole interval sweep; serial runs in the caller thread.',
          'A worker counts from Process.start() to its run() end event; trusts the ledger wrapper on multiprocessing.process.BaseProcess.start.', '4 C04'),
- 'C05': ('exploration', 'work-conservation oracle at every wait() entry and at every gate-controlled rest point',
+ 'C05': ('exploration', 'work-conservation oracle at every wait() entry and at every gate-controlled rest point; lingering worker processes that watch the event log for the next start',
          'Held on every explored rest point: no runnable-and-allowed task left unsubmitted; executing set == first max_workers in-flight tasks; serial wait() executes exactly one pending submission.',
          'Start-up wait expiry with sufficient launches is inconclusive, never a violation.', '4 C05'),
  'C07': ('exploration', 'key ledger (typed canonical identity <-> cache_key) checked as function and injection; cross-interpreter digest comparison under 16 hash seeds',
@@ -46,7 +46,7 @@ CHECKS = {
  'C18': ('exploration', 'file-system snapshot diff + sys.addaudithook record of every path operation around each LocalStorage call on an adversarial sandbox (strace cross-check in the thorough tier)',
          'Held on every explored (key, filename, operation, mode): outside canaries byte-identical, every changed or audited path inside the one direct child the key names.',
          'A key that is a symlink to a sibling key dir names that sibling; stat() during path resolution is not an open.', '4 C18'),
- 'C19': ('exploration', 'exactly-once token oracle over records received by a handler on labtech.logger at the moment run_tasks returns; gate-controlled choice of the last finisher',
+ 'C19': ('exploration', 'exactly-once token oracle over records received by a handler on labtech.logger at the moment run_tasks returns; gate-controlled choice of the last finisher; logger-level axes, exc_info / unpicklable-argument records, workers that die after emitting',
          'Held on every explored run: each unique token emitted by an executed task (logger levels; stdout/stderr print/flush patterns on process backends) occurs exactly once in the received records before run_tasks returns.',
          'stdout/stderr capture only promised for process backends.', '4 C19'),
  'C20': ('exploration', 'parse-back of build_task_diagram output compared with an independent traversal of the generated graph; cross-interpreter digest comparison',
@@ -55,13 +55,13 @@ CHECKS = {
  'C11': ('fault_enumeration', 'logical spin detector at the Runner boundary + bounded-progress watchdog with logical confirmation (no worker alive) under failures, deaths and external SIGKILLs via pidfds',
          'Held on every explored run: no three consecutive wait() calls with nothing in flight; every run returned or raised within B=30 s; a watchdog expiry counts as violated only when no worker of the run is alive.',
          'Liveness restated as bounded progress; B=30 s vs 0.5 s polling and sub-0.1 s tasks.', '4 C11'),
- 'C12': ('fault_enumeration', 'single-fault exception injection at every executed line of the save path (sys.monitoring failpoint), every storage open/write/flush/close, unpicklable results; post-state oracle reported => loadable',
+ 'C12': ('fault_enumeration', 'single-fault exception injection at every executed line of the save path (sys.monitoring failpoint), every storage open/write/flush/close, unpicklable results (also on an upload-on-close storage); post-state oracle reported => loadable, asked of the Lab that ran the save and of a fresh Lab',
          'Held for every enumerated fault point x cache format x first/overwrite x shape x victim (serial caller, fork worker): the task is reported failed and its entry is either not reported or loads the old/new value; bystander entry intact.',
          'Line and write-call granularity; storage faults raised by a LocalStorage subclass.', '4 C12'),
  'C13': ('fault_enumeration', 'SIGKILL/SIGTERM of the saving process at every executed line of the save path and every write-call boundary / mid-write split (flushed or not); verdict by a process that never ran the save; file-system signature classifier',
          'For every enumerated kill point the verdict (not reported | loads old/new | poisoned) is computed; poisoned outcomes whose post-kill signature shows an incomplete entry are the open known finding (labtech has no commit protocol); any other bad outcome is a violation.',
          'Line / write-call granularity; a forked copy of the harness stands in for the serial caller (fresh interpreter on a sample).', '4 C13'),
- 'C14': ('fault_enumeration', 'KeyboardInterrupt injected at the k-th labtech line of the calling thread (sys.monitoring failpoint), second interrupt k2 lines later, real process-group SIGINT at gate-controlled rest points / at launch; oracles O1-O4 over exception type, launch ledger, event log, cache post-state; SIGALRM hang watchdog',
+ 'C14': ('fault_enumeration', 'interrupt arriving at the k-th labtech line of the calling thread (sys.monitoring LINE failpoint) and delivered as KeyboardInterrupt at the next eval-breaker-equivalent event (function entry, loop back-edge, return from C), second interrupt k2 lines later incl. sweeps over the first interrupt\'s handler, real process-group SIGINT at gate-controlled rest points / at launch; oracles O1-O4 over exception type, launch ledger, event log, cache post-state; SIGALRM hang watchdog',
          'Held for every delivered interrupt: KeyboardInterrupt raised, nothing started afterwards, workers launched before a single interrupt finished and were cached, cache consistent; after a second interrupt workers dead and at most one epilogue wait().',
          'Line granularity in the calling thread; real signals only at controlled points.', '4 C14'),
  'C17': ('exploration', 'holders-model oracle over remove_results calls + probes of the real runner after each release, at each submit and at close()',
